@@ -58,6 +58,9 @@ def make_pool(rng):
                 pool.append((SF.integrate(c), [j]))
             elif op == "multiply":
                 k = rng.randrange(len(pool))
+                big = lambda x: max([getattr(l_, "arity", 1) for l_ in x.layers] + [1]) * max(l_.num_output_units for l_ in x.layers)
+                if big(c) * big(pool[k][0]) > 16 or len(c.layers) + len(pool[k][0].layers) > 60:
+                    continue    # products of products of products: the sum-layer index tensors grow multiplicatively
                 pool.append((SF.multiply(c, pool[k][0]), sorted({j, k})))
             elif op == "conjugate":
                 pool.append((SF.conjugate(c), [j]))
